@@ -76,7 +76,21 @@ def run(job):
         lines[ln] = l[:col] + new + l[col + len(old):]
         open(os.path.join(repo, path), 'w').write('\n'.join(lines))
         env = dict(os.environ, CARGO_NET_OFFLINE='true', CARGO_TARGET_DIR=tgt)
-        r = subprocess.run(['cargo', 'test', '--offline', '--no-fail-fast', '-q'], cwd=repo, env=env, capture_output=True, text=True, timeout=900)
+        # own process group: a mutant that loops for ever is killed together with the test binaries cargo started
+        import signal
+        pr = subprocess.Popen(['cargo', 'test', '--offline', '--no-fail-fast', '-q'], cwd=repo, env=env, stdout=subprocess.PIPE, stderr=subprocess.PIPE, text=True,
+                              start_new_session=True)
+        try:
+            so, se = pr.communicate(timeout=600)
+        except subprocess.TimeoutExpired:
+            os.killpg(pr.pid, signal.SIGKILL)
+            pr.communicate()
+            raise
+
+        class _R:
+            pass
+        r = _R()
+        r.returncode, r.stdout, r.stderr = pr.returncode, so, se
         if 'error[' in r.stderr or 'error: could not compile' in r.stderr:
             res['status'] = 'does not compile'
             return res
